@@ -92,6 +92,14 @@ func (m *c08Mon) Step(w *sessmc.World, e *sessmc.Event, obs []sessmc.Obs) (strin
 	return "", ""
 }
 
+// c08Alphabet789: the lifecycle alphabet with Logons that announce NextExpectedMsgSeqNum (for sessions with
+// EnableNextExpectedMsgSeqNum=Y): what we expect to send next (in step), one more (above anything sent: to be
+// refused), lower (the peer missed messages: implied resend).
+func c08Alphabet789() []*sessmc.Event {
+	a := c08Alphabet()
+	return append(a, sessmc.EvLogon789(0, 0), sessmc.EvLogon789(0, 1), sessmc.EvLogon789(0, 3), sessmc.EvLogon789(0, -1), sessmc.EvLogon789(2, 0))
+}
+
 func c08Alphabet() []*sessmc.Event {
 	wrongComp := &sessmc.Event{K: "in", Name: "in(A@T,wrongCompID)", In: &sessmc.In{Type: "A", Set: []fixscan.Field{{49, "EVIL"}}}}
 	rejLogon := sessmc.EvIn("A", 0, false, fixscan.Field{58, "REJECT"})
@@ -116,6 +124,9 @@ func init() {
 	register("C08", core.LevelMC, runC08)
 	variantDefs["C08"] = func(cfg sessmc.Config) searchSpec {
 		return searchSpec{cfg: cfg, alphabet: c08Alphabet(), mons: func() []sessmc.Monitor { return []sessmc.Monitor{&c08Mon{}} }, variant: "C08"}
+	}
+	variantDefs["C08/789"] = func(cfg sessmc.Config) searchSpec {
+		return searchSpec{cfg: cfg, alphabet: c08Alphabet789(), mons: func() []sessmc.Monitor { return []sessmc.Monitor{&c08Mon{}} }, variant: "C08/789"}
 	}
 }
 
@@ -149,6 +160,13 @@ func runC08(c *core.Ctx) {
 				}
 			}
 		}
+	}
+	// sessions that exchange NextExpectedMsgSeqNum(789) on the Logon; counters left over from earlier connections
+	for _, ini := range []bool{false, true} {
+		cfg := sessmc.Config{Initiator: ini, BeginString: "FIX.4.4", Extra: map[string]string{"EnableNextExpectedMsgSeqNum": "Y"}, InitS: 4, InitT: 3, InitMsgs: []string{"A", "D", "D"}}
+		sp := variantDefs["C08/789"](cfg)
+		sp.depth, sp.relative, sp.conform = depth-2, true, 40
+		runSearch(c, sp)
 	}
 	runConformance(c)
 	c.Set("depth", depth)
